@@ -7,7 +7,9 @@ import sys
 import time
 import traceback
 
-from common import VERIF, Driver, Stats, rng_for
+import common
+import gen
+from common import VERIF, Driver, Stats, rng_for, c_to_json, c_from_json
 
 KNOWN_FILE = os.path.join(VERIF, "KNOWN_FINDINGS.txt")
 
@@ -44,6 +46,7 @@ class Prop:
         self.drv = None
         self.corr_cases = 0
         self.search_cases = 0
+        self._hist = None
 
     # -- to override
     def corpus(self):
@@ -61,7 +64,57 @@ class Prop:
 
     # -- helpers
     def fail(self, kind, sig, desc, case):
+        if self._hist is not None:
+            case = dict(case)
+            case["history"] = self._hist
+            desc = f"{desc} [on an object that was queried before and then edited in place: {self._hist['edit']}]"
         self.fails.append({"kind": kind, "sig": sig, "desc": desc, "case": case})
+
+    def again_after_edit(self, c, fn, p=0.34, exclude=()):
+        """history-dependent scenario: `fn()` (the oracle on the object `c`) has just run; edit `c` in place through the
+        public API in a way that keeps its size (gen.inplace_edit) and run `fn()` again on the SAME object — every answer
+        must describe the circuit as it is now.  A failure records the history so that the replay can rebuild it."""
+        if self.rng.random() >= p:
+            return
+        before = c_to_json(c)
+        try:
+            op = gen.inplace_edit(self.rng, c, exclude)
+        except Exception:  # noqa: BLE001
+            return
+        if op is None:
+            return
+        self._hist = {"before": before, "edit": op}
+        self.stats.bump("history:" + op["op"])
+        try:
+            fn()
+        finally:
+            self._hist = None
+
+    def replay_with_history(self, case):
+        """rebuild the recorded history on one live object: the call on the circuit as it was, the in-place edit, then the
+        recorded case on the same object"""
+        h = case["history"]
+        case = {k: v for k, v in case.items() if k != "history"}
+        obj = c_from_json(h["before"])
+        key_before = json.dumps(h["before"], sort_keys=True)
+        scratch = c_from_json(h["before"])
+        gen.apply_edit(scratch, h["edit"])
+        after = c_to_json(scratch)
+        common.REPLAY_MEMO[key_before] = obj
+        pre = {k: (h["before"] if v == after else v) for k, v in case.items()}
+        try:
+            self.replay(pre)
+        except Exception:  # noqa: BLE001
+            pass
+        self.fails = []
+        gen.apply_edit(obj, h["edit"])
+        common.REPLAY_MEMO[json.dumps(after, sort_keys=True)] = obj
+        self._hist = h
+        try:
+            self.replay(case)
+        finally:
+            self._hist = None
+            common.REPLAY_MEMO.clear()
 
     def too_many(self):
         """stop a phase after 25 failures of that phase's kind"""
@@ -86,7 +139,11 @@ def run_main(cls):
         if args.replay:
             with open(args.replay) as f:
                 rec = json.load(f)
-            p.replay(rec.get("case", rec))
+            case = rec.get("case", rec)
+            if isinstance(case, dict) and "history" in case:
+                p.replay_with_history(case)
+            else:
+                p.replay(case)
         else:
             nc, ns = p.budget[args.tier]
             if args.proof_status != "ok":
